@@ -43,6 +43,7 @@ def wigm_prf_main_loop(self):
     invariant(forall('ref:droop.candidate.Candidate',
                      lambda c: implies(and_(in_election(c), c.state == 'elected', truthy(c.pending)), holds_quota(c, E))))
     invariant(E.quota > E.V0)
+    invariant(E.round >= 0)
     invariant(ghost('nH') + ghost('nE') >= E.electionProfile.nSeats)
     invariant(forall('ref:droop.candidate.Candidate',
                      lambda c: implies(and_(in_election(c), c.state == 'elected', not_(truthy(c.pending))), c.vote == E.quota)),
